@@ -52,9 +52,18 @@ theorem Pres.store (h : StableH I cfg) (r : Rec) : Pres I (store cfg r) := by
   unfold Engine.store
   exact Pres.call (fun s hi => h.write s r hi)
 
-theorem Pres.ack (h : Stable I cfg) (p : Proc) (i : Nat) : Pres I (ack p i) := by
+/-- `ack` touches the cursor only, whether or not the streamer looks at the context -/
+theorem Pres.ack' (hI : ∀ s p n, I s → I (Sys.setCursor s p n)) (p : Proc) (i : Nat) : Pres I (ack p i) := by
+  have hc : Pres I (Engine.call s!"ack(e{i})" (fun s => (("", .ok (), s.setCursor p (i + 1)) : String × Except Abort Unit × Sys))) :=
+    Pres.call (fun s hi => hI s p (i + 1) hi)
+  intro env st hi
   unfold Engine.ack
-  exact Pres.call (fun s hi => h.setCursor s p (i + 1) hi)
+  split
+  · exact hc env { st with cancelled := false } hi
+  · exact hc env st hi
+
+theorem Pres.ack (h : Stable I cfg) (p : Proc) (i : Nat) : Pres I (ack p i) :=
+  Pres.ack' (fun s p n hi => h.setCursor s p n hi) p i
 
 theorem Pres.updateRecord (h : StableH I cfg) (r : Rec) : Pres I (updateRecord cfg r) := by
   unfold Engine.updateRecord; exact Pres.store h _
